@@ -129,7 +129,14 @@ def run(res, tier, seed):
             cls = "bytes-left-over-after-message" if failed == ["noLeftover"] and ev["obs"].get("decoded") else "requirement-fails:" + ",".join(failed)
             res.mismatch(cls, {"opt": bool(ev["obs"]["optIn"]), "tsig": bool(ev["obs"]["tsigIn"])}, m)
         else:
-            cls = "server-response-too-long" if ev["len"] > ch.get("limit", 0) else "server-response-leftover-or-undecodable"
+            if ev["len"] > ch.get("limit", 0):
+                cls = "server-response-too-long"
+            elif not ev.get("decoded") or ev.get("leftover", 0) != 0:
+                cls = "server-response-leftover-or-undecodable"
+            elif ev["ev"] == "srvtc":
+                cls = "server-response-tc-changed" if ev["answers"] <= ev["given"] else "server-response-records-added"
+            else:
+                cls = "server-response-records-dropped-without-tc"
             res.mismatch(cls, {"proto": ev["proto"], "adv": ev["adv"]}, m)
 
 
